@@ -517,10 +517,25 @@ def env_at(body, node, env=None):
     return env
 
 
+class _Fold(ast.NodeTransformer):
+    """(a, b)[0] -> a ; [a, b][1] -> b"""
+
+    def visit_Subscript(self, node):
+        self.generic_visit(node)
+        if isinstance(node.value, (ast.Tuple, ast.List)) and isinstance(node.slice, ast.Constant) and isinstance(node.slice.value, int) \
+                and -len(node.value.elts) <= node.slice.value < len(node.value.elts) and not any(isinstance(e, ast.Starred) for e in node.value.elts):
+            return node.value.elts[node.slice.value]
+        return node
+
+
+def fold(e):
+    return _Fold().visit(e)
+
+
 def expr_at(fi, node, expr):
     """`expr` evaluated symbolically at the program point of `node` inside fi"""
     env = env_at(fi.node.body, node)
-    return _SubstEnv(env).visit(copy.deepcopy(expr))
+    return fold(_SubstEnv(env).visit(copy.deepcopy(expr)))
 
 
 # ----------------------------------------------------------------------------- table access paths
